@@ -260,6 +260,7 @@ type chainCov struct {
 func probeState(c *vlib.Ctx, st *stats, cov *chainCov, sim *chain.Sim, tk *tracker, cur []held, rng *rand.Rand, jo judgeOpts, v2budget int, ctx any, sampleLive int) {
 	h := hostOfChain(sim, cur, uint64(rng.Int63()))
 	tr := truthOf(cur)
+	h.tr = tr
 	cov.mu.Lock()
 	cov.states++
 	if len(cur) > cov.maxLive {
